@@ -32,7 +32,7 @@ ToFix(d) == IF DIsZero(d) THEN <<>>
             ELSE SubSeq(d[2], 1, Len(d[2]) + d[3] + PFix)
 IntPartFix(x) == IF Len(x) <= PFix THEN 0 ELSE IntOfNat(SubSeq(x, 1, Len(x) - PFix))
 FracPartFix(x) == IF Len(x) <= PFix THEN x ELSE StripLead(SubSeq(x, Len(x) - PFix + 1, Len(x)))
-\* exp(y), y a non-negative decimal below 60, as a decimal with ~28 correct digits
+\* exp(y), y a non-negative decimal of at most a few hundred, as a decimal with ~28 correct digits
 ExpApprox(y) == LET x == ToFix(y) IN Canon(FALSE, FMulT(EPowFix(IntPartFix(x)), ExpFracFix(FracPartFix(x))), -PFix)
 
 \* |a - b| <= tol * |b|   (tol a positive decimal)
